@@ -18,12 +18,13 @@ for s in $seeds; do
   case $s in
     unfix-D1) props="C01";; unfix-D8) props="C20";; unfix-D2) props="C02 C03";; unfix-D3) props="C09";; unfix-D4) props="C11";; unfix-D5) props="C19";; unfix-D6) props="C07";; unfix-D7) props="C06";;
     C10-r3-1|C10-r5-1) props="C10 C02";;      # the returned LayerData of the trait API: C02's subject
+    C03-r9-2|C07-r9-2) props="${s%%-*} C02";; C06-r9-2) props="C06 C09";; C07-r9-1) props="C07 C01";; C08-r9-1|C09-r9-2) props="${s%%-*} C14";; C13-r9-1) props="C13 C15";; C13-r9-2) props="C13 C16";;
     C02-r5-1) props="C02 C01";; C07-r5-1) props="C07 C01";; C08-r6-1) props="C08 C06";; C08-r6-2) props="C08 C15";; C08-r7-2) props="C08 C13";;      # a refused write that damages the layer file: seen by the next request (C01)
     *) props=${s%%-*};;
   esac
   git -C $MX/repo checkout -q -- . ; git -C $MX/repo apply $patch 2>/dev/null || { echo -e "$s\t-\tPATCH-DOES-NOT-APPLY" >> $out.tmp; continue; }
   for p in $props; do
-    res=$(./check $p --tier quick 2>&1 | grep -E "^(VIOLATION|HELD|BROKEN)" | head -1 | cut -d' ' -f1)
+    res=$(VERIF_SEED=${MXSEED:-0} ./check $p --tier quick 2>&1 | grep -E "^(VIOLATION|HELD|BROKEN)" | head -1 | cut -d' ' -f1)
     sig=$(ls replay 2>/dev/null | head -1)
     what=""; [ -n "$sig" ] && what=$(python3 -c "import json,sys; print(json.load(open('replay/$sig'))['sig'])")
     echo -e "$s\t$p\t${res:-NO-OUTPUT}\t$what" | tee -a $out.tmp
